@@ -3,7 +3,7 @@
 (* Validation of the real Euler schemes on scripted driver paths and of    *)
 (* the discount factors of every model (harness/drivers/sde_run.py).       *)
 (***************************************************************************)
-EXTENDS Integers, Sequences, FiniteSets, TLC, Json, IOUtils, TLCExt, SequencesExt
+EXTENDS Integers, Sequences, FiniteSets, TLC, Json, IOUtils, TLCExt, SequencesExt, Libor
 
 Lines == ndJsonDeserialize(IOEnv.TRACE_FILE)
 VARIABLES tid, ln, bad, fin
@@ -36,7 +36,7 @@ EulerStep ==
     /\ More /\ E.e = "Euler"
     /\ Judge(<< <<"Numeric", E.bad = 0>>,
                 <<"EulerRecursion", E.bad # 0 \/ EulerOK>>,
-                <<"TimeStepRule", E.bad # 0 \/ E.eps_u = E.h_u>> >>)
+                <<"TimeStepRule", E.bad # 0 \/ (E.eps_u = E.h_u /\ E.eps_drv_u = E.h_u)>> >>)
     /\ ln' = ln + 1 /\ UNCHANGED <<tid, fin>>
 
 Abs(x) == IF x < 0 THEN -x ELSE x
@@ -56,6 +56,15 @@ Finish ==
     /\ ~fin /\ ln = Len(T) + 1
     /\ IF bad = 0 THEN PrintT(<<"ACCEPT", Id>>) ELSE TRUE
     /\ fin' = TRUE /\ UNCHANGED <<tid, ln, bad>>
-TraceNext == EulerStep \/ DfStep \/ RaiseStep \/ Finish
+\* the Levy Libor model: first step exact; a rate that has fixed (tenor <= time of the step's left end) does not move
+LiborFirstOK == LET want == LiborEulerStep(H.x0, H.deltas, H.sig, H.tenors, QZero, H.zz, H.mu, H.dt1, H.dY1) IN
+                \A k \in 1..Len(H.x0) : E.first[k][2] # 0 /\ <<E.first[k][1], E.first[k][2]>> = want[k]
+LiborFrozenOK == \A k \in 1..Len(H.x0) : \A i \in 1..(Len(H.times4) - 1) :
+                    QLeq(H.tenors[k], Q(H.times4[i], 4)) => E.xr[k][i + 1] = E.xr[k][i]
+LiborStep ==
+    /\ More /\ E.e = "Libor"
+    /\ Judge(<< <<"EulerRecursion", LiborFirstOK>>, <<"FixedRatesFrozen", LiborFrozenOK>> >>)
+    /\ ln' = ln + 1 /\ UNCHANGED <<tid, fin>>
+TraceNext == EulerStep \/ LiborStep \/ DfStep \/ RaiseStep \/ Finish
 TraceSpec == TraceInit /\ [][TraceNext]_tvars
 =============================================================================
